@@ -559,6 +559,11 @@ def g_witness_set(g, depth):
             kw[f] = [g_plutus_script(v)(g, 0) for _ in range(rng.choice([1, 2]))]
     if rng.random() < 0.4:
         kw["plutus_data"] = [g_plutus_datum(g, 0) for _ in range(rng.choice([1, 2]))]
+    # the caller may hand over an ordered set instead of a plain list, tagged or not (the constructor re-wraps it)
+    for f in ("vkey_witnesses", "native_scripts", "plutus_v1_script", "plutus_v2_script", "plutus_v3_script"):
+        if f in kw and rng.random() < 0.35:
+            kw[f] = NonEmptyOrderedSet(kw[f], use_tag=rng.random() < 0.5)
+            g.hit("witness-set:field-given-as-ordered-set")
     if rng.random() < 0.5:
         if rng.random() < 0.5:
             kw["redeemer"] = [g_redeemer(g, 0) for _ in range(rng.choice([1, 2]))]
